@@ -8,6 +8,8 @@ Rules:
   * rustc accepts (ok / permitted) but RustStatic has a definite issue      -> spec-validation failure (transcription too strict)
   * rustc rejects and RustStatic has no issue at all                        -> the rejection is unexplained: violation (or a finding)
   * rustc rejects with signature s and no issue of a class mapped to s      -> unexplained as well
+  * exception: when the module has a `const-may-be-captured` issue (outside the transcription's domain), rustc's message class is not
+    held against the predicted classes: a captured constant produces arbitrary follow-up errors
 Everything else agrees.  Definite issues rustc does not mention are fine (rustc stops at the first failing phase).
 """
 
@@ -51,7 +53,11 @@ def compare(pred, rustc):
                              f"option set {opt}: rustc rejects a module Ext.RustStatic finds nothing wrong with: {msgs[:200]}", cid, opt, True))
             continue
         unexplained = [s for s in sigs if not (EXPLAINS.get(s, set()) & classes)]
-        if unexplained:
+        if unexplained and "const-may-be-captured" in classes:
+            # a constant captured by an unhygienic binding of a derive expansion produces arbitrary follow-up errors (a `bool` constant
+            # named like a local of encase's derive yields "`bool: CreateFrom` is not satisfied"): the message class says nothing here
+            counts["agree-reject-capture-domain"] = counts.get("agree-reject-capture-domain", 0) + 1
+        elif unexplained:
             problems.append(("static#rejection-not-explained",
                              f"option set {opt}: rustc's rejection ({unexplained[0]}: {msgs[:160]}) is not explained by the predicted issues {sorted(classes)}", cid, opt, True))
         else:
